@@ -46,6 +46,8 @@ Fixpoint hx (s : string) : bytes :=
   | _ => []
   end.
 
+Definition hxs (l : list bytes) : bytes := List.concat l.
+
 (* --- equality helpers --------------------------------------------------- *)
 Fixpoint beq_bytes (a b : bytes) : bool :=
   match a, b with
